@@ -526,6 +526,11 @@ def gen_case(rng, tier="quick"):
     for _ in range(2):
         dets.append({"only_border": rng.random() < 0.3, "flag_corners": rng.random() < 0.75,
                      "corner_order": rng.choice([4, 4, 4, 2, 3, 6, 8, 1]), "graph": rng.random() < 0.5})
+    # a run on a mesh that an earlier run (other options) has already been applied to: same answers expected
+    dets.append({"only_border": rng.random() < 0.5, "flag_corners": rng.random() < 0.85,
+                 "corner_order": rng.choice([4, 4, 2, 3, 6]), "graph": rng.random() < 0.3,
+                 "prior": {"only_border": False, "flag_corners": True, "corner_order": rng.choice([4, 4, 3, 8]),
+                           "graph": False}})
     info["loops"] = len(loops)
     info["normals"] = "declared" if normals else "computed"
     info["hard"] = "none" if hard is None else ("all" if len(hard) == len(all_edges) else "some")
